@@ -119,6 +119,25 @@ OtherEndCyl(c) ==
      r |-> c.r, h |-> c.h]
 
 -----------------------------------------------------------------------------
+(* the same configuration expressed in a length unit f times finer (f a positive integer): every   *)
+(* length is multiplied by f, directions and the frame are unchanged.  "In any length unit" of the  *)
+(* property means: membership is unchanged and every path length is multiplied by f               *)
+(* (Cases_Cylinder lets TLC confirm both on all cases of the model); the harness uses it to hand   *)
+(* the moved copy of a transmission set-up to the code in another unit than the original.          *)
+ScaleVec(f, v) == VNorm(<<f * v[1], f * v[2], f * v[3], v[4]>>)
+ScaleCyl(f, c) == [m |-> c.m, k |-> c.k, b |-> ScaleVec(f, c.b), r |-> f * c.r, h |-> f * c.h]
+ScaleRay(f, ray) == [s |-> ScaleVec(f, ray.s), n |-> ray.n]
+RScale(f, x) == RNorm(<<f * x[1], x[2]>>)
+
+(* ways in which a batch of rays can be handed to beam_intersection (the result must not depend on  *)
+(* it): every ray on its own as 0-d operands, 1-d lists (also in reversed order), a 0-d start with  *)
+(* a list of directions, a list of starts with a 0-d direction, starts x directions broadcast to a  *)
+(* 2-d grid, and the same grid with both operands transposed (non-contiguous) 2-d arrays            *)
+RayLayouts == {"1d", "1d_reversed", "0d", "start0d", "dir0d", "2d", "2d_transposed"}
+(* number types of radius and height: the same numbers as float64, float32 or int64                 *)
+SizeTypes == {"float64", "float32", "int64"}
+
+-----------------------------------------------------------------------------
 (* rays.  With w = s - b (over D), a = axis (over k), n (over nd):                              *)
 (*   slab      0 <= w.a + t n.a <= h                                                          *)
 (*   cylinder  A t^2 + 2 B t + C <= 0,  A = 1-(n.a)^2 = |n x a|^2,  B = w.n - (w.a)(n.a),      *)
